@@ -236,4 +236,5 @@ def run(ctx, tier):
     rules_c17.ctor_rules(ctx, I17)
     rules_c17.region_rules(ctx, I17)
     rules_c17.exhaustive_rule(ctx, I17)
+    rules_c17.nan_rules(ctx, I17)
     ctx.assume('regions are only reachable through the state list; convexity argument of C17 not decided')
